@@ -25,6 +25,7 @@ func c18Gen(tier string, seed int64) []fw.Case {
 	for _, w := range c18Workloads {
 		for _, resp := range []int{8, 15} {
 			cs = append(cs, fw.Mk(fmt.Sprintf("single/%s/resp%d", w, resp), c18Params{W: w, Mode: "single", Resp: resp}))
+			cs = append(cs, fw.Mk(fmt.Sprintf("triples/%s/resp%d", w, resp), c18Params{W: w, Mode: "triples", Resp: resp}))
 			parts := scale(tier, 2, 6)
 			for i := 0; i < parts; i++ {
 				cs = append(cs, fw.Mk(fmt.Sprintf("pairs/%s/resp%d/%d", w, resp, i), c18Params{W: w, Mode: "pairs", Resp: resp, Part: i, Of: parts}))
@@ -45,6 +46,19 @@ func c18Run(c fw.Case, env *fw.Env) fw.Result {
 	case "single":
 		for k := 2; k <= n+1; k++ {
 			plans = append(plans, []scen.Fault{{At: k, Kind: scen.DropResp}})
+		}
+	case "triples":
+		// the acknowledgement is dropped on three consecutive connections: first transmission,
+		// first retransmission and second retransmission
+		for k1 := 2; k1 <= n; k1++ {
+			for d1 := 1; d1 <= 3; d1++ {
+				for d2 := 1; d2 <= 3; d2++ {
+					if env.Tier != "thorough" && (k1+d1+d2)%2 == 1 {
+						continue
+					}
+					plans = append(plans, []scen.Fault{{At: k1, Kind: scen.DropResp}, {At: k1 + d1, Kind: scen.DropResp}, {At: k1 + d1 + d2, Kind: scen.DropResp}})
+				}
+			}
 		}
 	case "pairs":
 		i := 0
@@ -181,7 +195,7 @@ func init() {
 	fw.Register(&fw.Prop{
 		ID:    "C18",
 		Level: "fault_enumeration",
-		Rule: "real ReconnectClient with RetryClient.ResponseTimeout 8/15 ms; the broker model silently drops the acknowledgement (PUBACK, PUBREC, PUBCOMP, SUBACK, UNSUBACK) of the k-th request packet for every k (single sweep) and of two packets k1<k2<=k1+4 (pairs: the second drop hits the retransmission on the next connection; thorough adds a closing fault behind). " +
+		Rule: "real ReconnectClient with RetryClient.ResponseTimeout 8/15 ms; the broker model silently drops the acknowledgement (PUBACK, PUBREC, PUBCOMP, SUBACK, UNSUBACK) of the k-th request packet for every k (single sweep) and of two packets k1<k2<=k1+4 (pairs and triples: the later drops hit the retransmissions on the next connections; thorough adds a closing fault behind). " +
 			"Oracle per fired drop: an OnError value that errors.As RequestTimeoutError, then library Close of that connection, then a new connection and a retransmission of the request; obligation ledger discharged at quiescence; a run certified stuck (nothing can move, a call blocked on a live silent connection) is a violation. Non-trivial: distinct (workload, fired drops).",
 		Assumptions: []string{"no bound on the time of the close is asserted (the timeout context is created before the write at a moment the trace cannot see)", "certified-stuck certificate of DESIGN.md 2.6"},
 		Gen:         c18Gen,
